@@ -122,13 +122,13 @@ pub fn check_parse(
     };
     let dt = thread_cpu_ms() - t0;
     if dt > 5000 {
-        st.violation(format!("slow:{op}"), format!("{} ms cpu; argv={} spec={:?}", dt, show_argv(argv), spec));
+        st.violation(format!("slow:{op}"), format!("{} ms cpu; argv={} spec={}", dt, show_argv(argv), brief(spec)));
     }
     match r {
         Err(p) => {
             st.violation(
                 format!("panic:{op}@{}", p.loc),
-                format!("{} | argv={} | spec={:?}", p.msg, show_argv(argv), spec),
+                format!("{} | argv={} | spec={}", p.msg, show_argv(argv), brief(spec)),
             );
         }
         Ok(Ok(m)) => {
@@ -136,7 +136,7 @@ pub fn check_parse(
             if let Err(p) = catch(|| touch_matches(&m, 0)) {
                 st.violation(
                     format!("panic:matches@{}", p.loc),
-                    format!("{} | argv={} | spec={:?}", p.msg, show_argv(argv), spec),
+                    format!("{} | argv={} | spec={}", p.msg, show_argv(argv), brief(spec)),
                 );
             }
         }
@@ -146,7 +146,7 @@ pub fn check_parse(
             if let Err(p) = catch(|| touch_error(&e)) {
                 st.violation(
                     format!("panic:render-error@{}", p.loc),
-                    format!("{} | kind={:?} argv={} | spec={:?}", p.msg, kind, show_argv(argv), spec),
+                    format!("{} | kind={:?} argv={} | spec={}", p.msg, kind, show_argv(argv), brief(spec)),
                 );
             }
             if spec.has(Setting::IgnoreErrors) {
@@ -154,7 +154,7 @@ pub fn check_parse(
                 if !matches!(kind, ErrorKind::DisplayHelp | ErrorKind::DisplayVersion) {
                     st.violation(
                         format!("ignore_errors:err-kind:{:?}", kind),
-                        format!("argv={} | spec={:?}", show_argv(argv), spec),
+                        format!("argv={} | spec={}", show_argv(argv), brief(spec)),
                     );
                 }
             }
